@@ -42,7 +42,11 @@ def main():
                 shutil.copytree(s, os.path.join(d, sub), ignore=shutil.ignore_patterns("__pycache__"))
             else:
                 shutil.copy(s, os.path.join(d, sub))
-        env = dict(os.environ, PYTHONPATH=os.path.join(d, "src"), PYTHONDONTWRITEBYTECODE="1")
+        home = os.path.join(d, "home")
+        os.makedirs(home, exist_ok=True)
+        # tests / demos of changes that keep things on disk must not leave them in the real home or /tmp
+        env = dict(os.environ, PYTHONPATH=os.path.join(d, "src"), PYTHONDONTWRITEBYTECODE="1", HOME=home, XDG_CACHE_HOME=home,
+                   TMPDIR=home, PYAB_CACHE_DIR=os.path.join(home, "pyab-cache"))
         # some demos locate the package relative to their own path (../../src): give them the same layout inside the copy
         os.makedirs(os.path.join(d, "out", "k"), exist_ok=True)
         demo = os.path.join(d, "out", "k", "demo.py")
